@@ -93,6 +93,7 @@ struct Ctx<'a> {
 
 impl Ctx<'_> {
     fn run(&mut self, args: &[String]) -> std::process::Output {
+        infra::watch_touch();
         self.calls += 1;
         cli::run(&self.exe, self.dir, args, None)
     }
